@@ -258,8 +258,10 @@ func runScenarioWith(cs *exCase, w *world, u progen.Universe, code0 []byte, debu
 	// per-step observations that need the live EVM
 	evmv := reflect.ValueOf(env.EVM).Elem()
 	callSteps := 0
+	pendingCreate := map[int]common.Address{} // depth -> creator whose CREATE step was the last step seen at that depth
 	rec.OnState = func(e *impl.Event, scope *vm.ScopeContext) {
 		if e.HasErr {
+			delete(pendingCreate, e.Depth)
 			return
 		}
 		if len(cs.Toggles) > 0 {
@@ -282,6 +284,15 @@ func runScenarioWith(cs *exCase, w *world, u progen.Universe, code0 []byte, debu
 			}
 		}
 		e.Digest = worldDigest(env.State, seenAddrs, r.touched)
+		if self, ok := pendingCreate[e.Depth]; ok {
+			e.Digest2 = worldDigestX(env.State, seenAddrs, r.touched, &self)
+			delete(pendingCreate, e.Depth)
+		}
+		if e.Op == 0xf0 || e.Op == 0xf5 {
+			self := e.Self
+			e.Digest2 = worldDigestX(env.State, seenAddrs, r.touched, &self)
+			pendingCreate[e.Depth] = self
+		}
 		if (e.Op == 0xe0 || e.Op == 0xe1) && len(e.Stack) >= 1 && e.Stack[len(e.Stack)-1].IsUint64() {
 			ptr := e.Stack[len(e.Stack)-1].Uint64()
 			if ptr+32 <= uint64(len(e.Mem)) {
